@@ -780,6 +780,11 @@ package ugo
 //@ loop 0 step[finalizer@C03] prev(vm.curInsts[vm.ip+1]) == byte(OpFinalizer) ==> vm.sp == prev(vm.sp) && ((vm.ip == prev(vm.ip)+2) || (len(specHandlers(vm)) >= 1 && specHandlers(vm)[len(specHandlers(vm))-1].returnTo == prev(vm.ip)+1 && specHandlers(vm)[len(specHandlers(vm))-1].sp == vm.sp && specPendingErr(vm) == nil && specHandlers(vm)[len(specHandlers(vm))-1].finally > 0 && vm.ip == specHandlers(vm)[len(specHandlers(vm))-1].finally-1))
 //@ loop 1 invariant vm.sp == prev(vm.sp) && vm.frameIndex == prev(vm.frameIndex) && vm.curFrame == prev(vm.curFrame) && vm.ip == prev(vm.ip)+1
 //@ loop 1 invariant[retslot@C02] (numRet == 1 ==> vm.stack[bp-1] == prev(vm.stack[vm.sp-1])) && (numRet != 1 ==> vm.stack[bp-1] == Undefined)
+//@ loop 2 invariant 0 <= i && i <= numFree && len(free) == numFree && vm.sp == prev(vm.sp) && vm.ip == prev(vm.ip)+1
+//@ loop 2 invariant[pending@C02] forall k int :: i <= k && k < numFree ==> vm.stack[vm.sp-numFree+k] == prev(verifrt.Snap(vm.stack[:]))[prev(vm.sp)-numFree+k]
+//@ loop 2 invariant[captured@C02] forall k int :: 0 <= k && k < i && specIsBoxed(prev(verifrt.Snap(vm.stack[:]))[prev(vm.sp)-numFree+k]) ==> Object(free[k]) == prev(verifrt.Snap(vm.stack[:]))[prev(vm.sp)-numFree+k]
+//@ loop 0 step[closure@C02] prev(vm.curInsts[vm.ip+1]) == byte(OpClosure) ==> vm.ip == prev(vm.ip)+4 && vm.sp == prev(vm.sp)-prev(int(vm.curInsts[vm.ip+4]))+1 && specClosureOf(vm.stack[vm.sp-1], prev(vm.constants[specOperand16(vm.curInsts, vm.ip+2)]), prev(int(vm.curInsts[vm.ip+4])))
+//@ loop 0 step[closurecaptures@C02] prev(vm.curInsts[vm.ip+1]) == byte(OpClosure) ==> forall k int :: 0 <= k && k < prev(int(vm.curInsts[vm.ip+4])) && specIsBoxed(prev(verifrt.Snap(vm.stack[:]))[prev(vm.sp)-prev(int(vm.curInsts[vm.ip+4]))+k]) ==> specCaptured(vm.stack[vm.sp-1], k, prev(verifrt.Snap(vm.stack[:]))[prev(vm.sp)-prev(int(vm.curInsts[vm.ip+4]))+k])
 //@ loop 0 step[loadmodule@C12] prev(vm.curInsts[vm.ip+1]) == byte(OpLoadModule) ==> vm.sp == prev(vm.sp)+2 && vm.ip == prev(vm.ip)+5 && specLoadModule(prev(vm.modulesCache[specOperand16(vm.curInsts, vm.ip+4)]), prev(vm.constants[specOperand16(vm.curInsts, vm.ip+2)]), vm.stack[prev(vm.sp)], vm.stack[prev(vm.sp)+1])
 //@ loop 0 step[storemodule@C12] prev(vm.curInsts[vm.ip+1]) == byte(OpStoreModule) ==> vm.sp == prev(vm.sp) && vm.ip == prev(vm.ip)+3 && vm.modulesCache[prev(specOperand16(vm.curInsts, vm.ip+2))] == vm.stack[vm.sp-1]
 //@ loop 0 panicpoint
